@@ -82,17 +82,22 @@ def refinement_case(c, quick, tol=None):
     smooth toy PDFs: deviations from the finest grid stay within calibrated bounds and shrink under refinement"""
     bounds = dict(coarse=3e-2, medium=5e-4, medium_degree3=5e-3)      # measured on the unchanged tree: 7e-3, 5e-5, 1e-3
     setups = [("coarse", make_grid(12, 8), 4), ("medium", make_grid(30, 20), 4), ("medium_degree3", make_grid(30, 20), 3), ("fine", make_grid(50, 30), 4)]
+    if c.get("fact"):
+        # the factorisation-scale terms are built by another routine (conv.convolve_operator): a degree-2 grid joins the comparison
+        bounds["fine_degree2"] = 8e-3       # measured 2.7e-3
+        setups.insert(3, ("fine_degree2", make_grid(50, 30), 2))
     xs = c.get("xs") or [0.003, 0.03, 0.2, 0.5]
     name = c["kind"] + "_total"
+    keys = [(o, 0, 0, 0) for o in range(c["pto"] + 1)] + ([(1, 0, 0, 1)] if c.get("fact") else [])
     proj = "neutrino" if c["proc"] == "CC" else "electron"
     vals = {}
     for label, grid, deg in setups:
-        out = runs.run(cards.theory_card(PTO=c["pto"], PTODIS=c["pto"], TMC=c.get("tmc", 0), MP=0.938),
+        out = runs.run(cards.theory_card(PTO=c["pto"], PTODIS=c["pto"], TMC=c.get("tmc", 0), MP=0.938, FactScaleVar=bool(c.get("fact"))),
                        cards.obs_card({name: [dict(x=x, Q2=c["Q2"]) for x in xs]}, prDIS=c["proc"], ProjectileDIS=proj, xgrid=grid, degree=deg, is_log=True))
-        vals[label] = [[contract(r, grid, (o, 0, 0, 0)) for o in range(c["pto"] + 1)] for r in out[name]]
+        vals[label] = [[contract(r, grid, k) for k in keys] for r in out[name]]
     probs = []
     for i, x in enumerate(xs):
-        for o in range(c["pto"] + 1):
+        for o in range(len(keys)):
             v = {l: vals[l][i][o] for l in vals}
             sc = max(abs(a) for a in v.values())
             if sc < 1e-12:
@@ -109,7 +114,8 @@ def refinement_case(c, quick, tol=None):
 def patrol(chk, n_disp, n_ref):
     bad, dist, crashed = 0, {}, {}
     # target-mass corrections integrate over the grid once more: one such case is always part of the refinement comparison
-    fixed_ref = [dict(proc="EM", kind="F2", pto=0, Q2=2.0, seed=0, tmc=1, xs=[0.3, 0.6]), dict(proc="EM", kind="F2", pto=0, Q2=5.0, seed=1, tmc=3, xs=[0.25, 0.5])]
+    fixed_ref = [dict(proc="EM", kind="F2", pto=0, Q2=2.0, seed=0, tmc=1, xs=[0.3, 0.6]), dict(proc="EM", kind="F2", pto=0, Q2=5.0, seed=1, tmc=3, xs=[0.25, 0.5]),
+                 dict(proc="NC", kind="F2", pto=1, Q2=20.0, seed=2, fact=True, xs=[0.01, 0.3, 0.6])]
     for it in range(n_disp + n_ref + len(fixed_ref)):
         c = fixed_ref[it - n_disp - n_ref] if it >= n_disp + n_ref else gen_case(chk.rng, chk.tier == "quick")
         which = "displaced" if it < n_disp else "refinement"
